@@ -106,6 +106,14 @@ CLAIMED = {
             'expression objects; tied to the code by running the same histories on real shared objects (observations and final '
             'expression store compared) and re-checking every live expression after every call.',
             'boolean.py class attributes rewritten by each Licensing() are not modelled (never read by the modelled functions).', 'DESIGN.md section 4 C19'),
+    'C20': ('Coq proof of an interleaving model (partial: statement granularity, not the Python runtime): for the statement order '
+            'generated from the source on every run, every schedule of any number of threads gives every returned call a '
+            'complete tokenizer; refutation witness for publish-before-fill; + deterministic sys.settrace scheduler enumerating '
+            'all single-preemption schedules on the real code with trace validation against the model',
+            'Invariant proof over all schedules of the abstract program of get_advanced_tokenizer; the program is regenerated from '
+            'the AST on every run and Tie/ThreadProg.v re-proves its safety hypothesis; each real execution is replayed on the '
+            'model (traces_validated_against_impl).',
+            'Partial: bytecode-level switches inside a line, the GIL / free-threaded builds and C-level atomicity are not modelled.', 'DESIGN.md section 4 C20'),
 }
 
 NOT_YET = 'check under construction in this session; see DESIGN.md section 4 for the planned theorem'
